@@ -54,30 +54,25 @@ func c06Check(c *c06Ctx, in fmtInput) {
 		return
 	}
 	r.Validated++
-	if m.Text != formatted {
-		r.Violate(Violation{Kind: "correspondence", Key: "model-text-differs",
-			Detail: "coq/Format.v format and Program.Format() differ on the exported tree", Input: src, Impl: formatted, Model: m.Text})
-		return
-	}
-	if !m.WF {
-		r.Violate(Violation{Kind: "correspondence", Key: "wf-hypothesis-false-on-parser-output",
-			Detail: "the parser produced a tree + side tables outside wf_prog, the hypothesis of C06_format_emits_tree_tokens / C07_format_shape", Input: src, Impl: formatted})
-		return
-	}
 	fToks, _ := lexSig(formatted)
 	fTexts := make([]string, len(fToks))
 	for i, t := range fToks {
 		fTexts[i] = t.Text
 	}
-	if d := firstDiff(m.Tokens, fTexts); d != "" {
+	// a correspondence failure does not end the case: the property's own oracles below still run (DESIGN 5.3)
+	switch {
+	case m.Text != formatted:
+		r.Violate(Violation{Kind: "correspondence", Key: "model-text-differs",
+			Detail: "coq/Format.v format and Program.Format() differ on the exported tree", Input: src, Impl: formatted, Model: m.Text})
+	case !m.WF:
+		r.Violate(Violation{Kind: "correspondence", Key: "wf-hypothesis-false-on-parser-output",
+			Detail: "the parser produced a tree + side tables outside wf_prog, the hypothesis of C06_format_emits_tree_tokens / C07_format_shape", Input: src, Impl: formatted})
+	case firstDiff(m.Tokens, fTexts) != "":
 		r.Violate(Violation{Kind: "correspondence", Key: "model-tokens-differ-from-lexer",
-			Detail: "tokens_of_ast(tree) is not the real lexer's significant-token sequence of Format(): " + d, Input: src, Impl: fTexts, Model: m.Tokens})
-		return
-	}
-	if m.Stripped != strings.Join(m.Tokens, "") {
+			Detail: "tokens_of_ast(tree) is not the real lexer's significant-token sequence of Format(): " + firstDiff(m.Tokens, fTexts), Input: src, Impl: fTexts, Model: m.Tokens})
+	case m.Stripped != strings.Join(m.Tokens, ""):
 		r.Violate(Violation{Kind: "correspondence", Key: "strip-ws-differs",
 			Detail: "strip_ws (format a) <> concat (tokens_of_ast a) on a wf tree: the theorem's instance is false?!", Input: src, Model: m.Stripped})
-		return
 	}
 
 	// ---- property oracle 1: significant tokens of source and formatted text ----
